@@ -1,6 +1,323 @@
 package main
 
-import "math/rand"
+// Seeded, type-directed generation of core programs over the standard
+// environment E1 (YaeUniverse!StdEnvIn) and its user functions: programs far
+// deeper than the universes TLC enumerates.  The harness only produces the
+// trees; what each must evaluate to is decided by the specification when TLC
+// validates the recorded observations (Trace_Eval / Trace_VM).  Numbers are kept
+// small integers and halves so that most programs stay in the exact domain
+// (records that leave it are reported as not judged, never as violations).
 
-// genProgs: seeded type-directed generation of programs (explore mode) -- see gen_prog2.go
-func genProgs(rng *rand.Rand, n int, mode string) []J { return nil }
+import (
+	"math/rand"
+)
+
+type gty int
+
+const (
+	gNum gty = iota
+	gStr
+	gBool
+	gTime
+	gListNum
+	gListStr
+	gMapSN
+	gObj
+	gMaybeNum
+	gNTypes
+)
+
+type pgen struct {
+	rng *rand.Rand
+}
+
+func idJ(n string) J { return J{"k": "id", "n": cps(n)} }
+func callJ(f string, a ...J) J {
+	as := A{}
+	for _, x := range a {
+		as = append(as, x)
+	}
+	return J{"k": "call", "f": idJ(f), "args": as}
+}
+func numLitJ(f float64) J { return J{"k": "num", "v": numJ(f)} }
+func strLitJ(s string) J  { return J{"k": "str", "v": cps(s)} }
+func boolLitJ(b bool) J   { return J{"k": "bool", "v": b} }
+func listJ(els ...J) J {
+	as := A{}
+	for _, x := range els {
+		as = append(as, x)
+	}
+	return J{"k": "list", "els": as}
+}
+func subJ(x, i J) J        { return J{"k": "sub", "x": x, "i": i} }
+func memJ(x J, n string) J { return J{"k": "mem", "x": x, "n": cps(n)} }
+func objJ2(n1 string, v1 J, n2 string, v2 J) J {
+	return J{"k": "obj", "fs": A{J{"n": cps(n1), "v": v1}, J{"n": cps(n2), "v": v2}}}
+}
+func mapJ(kv ...J) J {
+	ps := A{}
+	for i := 0; i+1 < len(kv); i += 2 {
+		ps = append(ps, J{"key": kv[i], "val": kv[i+1]})
+	}
+	return J{"k": "map", "ps": ps}
+}
+
+func (g *pgen) pick(xs ...string) string { return xs[g.rng.Intn(len(xs))] }
+
+func (g *pgen) leaf(t gty) J {
+	switch t {
+	case gNum:
+		switch g.rng.Intn(4) {
+		case 0:
+			return numLitJ(float64(g.rng.Intn(7)))
+		case 1:
+			return numLitJ(float64(g.rng.Intn(9)) / 2)
+		default:
+			return idJ(g.pick("n", "p", "z", "q", "n"))
+		}
+	case gStr:
+		if g.rng.Intn(3) == 0 {
+			return strLitJ(g.pick("", "a", "ab", "é晓", "x y", "a\"b"))
+		}
+		return idJ(g.pick("s", "u", "w"))
+	case gBool:
+		if g.rng.Intn(3) == 0 {
+			return boolLitJ(g.rng.Intn(2) == 0)
+		}
+		return idJ(g.pick("b", "c"))
+	case gTime:
+		return idJ(g.pick("tm", "d"))
+	case gListNum:
+		switch g.rng.Intn(12) {
+		case 0, 1, 2:
+			return listJ(numLitJ(float64(g.rng.Intn(4))), numLitJ(float64(g.rng.Intn(4))))
+		case 3:
+			return listJ() // the empty literal: list[bottom] -- accepted only where the rules say so
+		}
+		return idJ(g.pick("xs", "ys", "xs"))
+	case gListStr:
+		return idJ("ss")
+	case gMapSN:
+		if g.rng.Intn(8) == 0 {
+			return mapJ()
+		}
+		return idJ("m")
+	case gObj:
+		return idJ(g.pick("ob", "oba"))
+	case gMaybeNum:
+		return idJ(g.pick("mx", "mj"))
+	}
+	panic("leaf")
+}
+
+// gen produces a tree of the requested type (by construction well typed, up to the deliberate mutations)
+func (g *pgen) gen(t gty, d int) J {
+	if d <= 0 || g.rng.Intn(6) == 0 {
+		return g.leaf(t)
+	}
+	d--
+	r := g.rng.Intn
+	switch t {
+	case gNum:
+		switch r(24) {
+		case 0, 1:
+			return callJ("+", g.gen(gNum, d), g.gen(gNum, d))
+		case 2:
+			return callJ("-", g.gen(gNum, d), g.gen(gNum, d))
+		case 3:
+			return callJ("*", g.gen(gNum, d), g.leaf(gNum))
+		case 4:
+			return callJ("len", g.gen(gty(4+r(3)), d)) // list[num] | list[str] | map
+		case 5:
+			return callJ("len", g.gen(gStr, d))
+		case 6:
+			return subJ(g.gen(gListNum, d), numLitJ(float64(r(4))))
+		case 7:
+			return memJ(g.gen(gObj, d), "a")
+		case 8:
+			return callJ("if", g.gen(gBool, d), g.gen(gNum, d), g.gen(gNum, d))
+		case 9:
+			return callJ("get", g.gen(gMaybeNum, d), g.gen(gNum, d))
+		case 10:
+			return subJ(g.gen(gMapSN, d), strLitJ(g.pick("a", "b", "a", "zz")))
+		case 11:
+			return callJ(g.pick("abs", "floor", "ceil", "round"), g.gen(gNum, d))
+		case 12:
+			return callJ(g.pick("max", "min"), g.gen(gNum, d), g.gen(gNum, d))
+		case 13:
+			return callJ("t", numLitJ(float64(r(9))), g.gen(gNum, d))
+		case 14:
+			return callJ(g.pick("id", "twice"), g.gen(gNum, d))
+		case 15:
+			return callJ(g.pick("pick", "second"), g.gen(gNum, d), g.gen(gNum, d))
+		case 16:
+			return callJ("lif", g.gen(gBool, d), g.gen(gNum, d), g.gen(gNum, d))
+		case 17:
+			return callJ("f", g.gen(gListNum, d), g.gen(gListNum, d))
+		case 18:
+			return callJ("h", g.gen(gObj, d))
+		case 19:
+			return callJ("-", g.gen(gNum, d))
+		case 20:
+			return callJ("%", g.gen(gNum, d), numLitJ(float64(r(4))))
+		case 21:
+			return callJ("get", g.gen(gListNum, d), g.gen(gNum, d), g.gen(gNum, d))
+		case 22:
+			return callJ("never", g.gen(gty(r(int(gNTypes))), d))
+		default:
+			return callJ(g.pick("max", "min"), g.gen(gListNum, d))
+		}
+	case gStr:
+		switch r(8) {
+		case 0, 1:
+			return callJ("+", g.gen(gStr, d), g.gen(gStr, d))
+		case 2:
+			return callJ("string", g.gen(gty(r(int(gNTypes))), d))
+		case 3:
+			return memJ(g.gen(gObj, d), "b")
+		case 4:
+			return subJ(g.gen(gListStr, d), numLitJ(float64(r(4))))
+		case 5:
+			return callJ("if", g.gen(gBool, d), g.gen(gStr, d), g.gen(gStr, d))
+		case 6:
+			return callJ(g.pick("id", "twice"), g.gen(gStr, d))
+		default:
+			return callJ("t", numLitJ(float64(r(9))), g.gen(gStr, d))
+		}
+	case gBool:
+		switch r(10) {
+		case 0, 1:
+			return callJ(g.pick(">", ">=", "<", "<=", "==", "!="), g.gen(gNum, d), g.gen(gNum, d))
+		case 2:
+			return callJ(g.pick("==", "!="), g.gen(gStr, d), g.gen(gStr, d))
+		case 3:
+			return callJ(g.pick("&&", "||"), g.gen(gBool, d), g.gen(gBool, d))
+		case 4:
+			return callJ("!", g.gen(gBool, d))
+		case 5:
+			return callJ("isset", g.gen(gMapSN, d), g.gen(gStr, d))
+		case 6:
+			t2 := gty(4 + r(4)) // list[num] | list[str] | map | obj
+			return callJ(g.pick("==", "!="), g.gen(t2, d), g.gen(t2, d))
+		case 7:
+			return callJ("lif", g.gen(gBool, d), g.gen(gBool, d), g.gen(gBool, d))
+		case 8:
+			return callJ("isset", g.gen(gMaybeNum, d))
+		default:
+			return callJ(g.pick(">", "<"), g.gen(gTime, d), g.gen(gTime, d))
+		}
+	case gTime:
+		if r(2) == 0 {
+			return callJ("if", g.gen(gBool, d), g.gen(gTime, d), g.gen(gTime, d))
+		}
+		return callJ("pick", g.gen(gTime, d), g.gen(gTime, d))
+	case gListNum:
+		switch r(7) {
+		case 0:
+			return listJ(g.gen(gNum, d), g.gen(gNum, d), g.gen(gNum, d))
+		case 1, 2:
+			return callJ(g.pick("union", "intersect", "diff"), g.gen(gListNum, d), g.gen(gListNum, d))
+		case 3:
+			return callJ("if", g.gen(gBool, d), g.gen(gListNum, d), g.gen(gListNum, d))
+		case 4:
+			return callJ(g.pick("id", "twice"), g.gen(gListNum, d))
+		case 5:
+			return callJ("pair", g.gen(gNum, d), g.gen(gNum, d))
+		default:
+			return listJ(g.gen(gNum, d))
+		}
+	case gListStr:
+		switch r(3) {
+		case 0:
+			return listJ(g.gen(gStr, d), g.gen(gStr, d))
+		case 1:
+			return callJ("union", g.gen(gListStr, d), g.gen(gListStr, d))
+		default:
+			return callJ("second", g.gen(gListStr, d), g.gen(gListStr, d))
+		}
+	case gMapSN:
+		switch r(3) {
+		case 0:
+			return mapJ(g.gen(gStr, d), g.gen(gNum, d), g.gen(gStr, d), g.gen(gNum, d))
+		case 1:
+			return callJ("if", g.gen(gBool, d), g.gen(gMapSN, d), g.gen(gMapSN, d))
+		default:
+			return mapJ(strLitJ(g.pick("a", "k")), g.gen(gNum, d))
+		}
+	case gObj:
+		switch r(5) {
+		case 0:
+			return objJ2("a", g.gen(gNum, d), "b", g.gen(gStr, d))
+		case 1:
+			return objJ2("b", g.gen(gStr, d), "a", g.gen(gNum, d))
+		case 2:
+			return callJ("pick", g.gen(gObj, d), g.gen(gObj, d))
+		case 3:
+			return subJ(idJ("os"), numLitJ(float64(r(3))))
+		default:
+			return callJ("if", g.gen(gBool, d), g.gen(gObj, d), g.gen(gObj, d))
+		}
+	case gMaybeNum:
+		switch r(4) {
+		case 0:
+			return subJ(idJ("lo"), numLitJ(float64(r(3))))
+		case 1:
+			return memJ(idJ("oo"), "a")
+		case 2:
+			return callJ("if", g.gen(gBool, d), g.gen(gMaybeNum, d), g.gen(gMaybeNum, d))
+		default:
+			return callJ("pick", g.gen(gMaybeNum, d), g.gen(gMaybeNum, d))
+		}
+	}
+	panic("gen")
+}
+
+// mutate replaces one random subtree by a leaf of a random type: most mutants are ill typed
+func (g *pgen) mutate(j J) J {
+	if g.rng.Intn(3) == 0 {
+		return g.leaf(gty(g.rng.Intn(int(gNTypes))))
+	}
+	switch j["k"] {
+	case "call":
+		args := arr(j["args"])
+		if len(args) == 0 {
+			return j
+		}
+		i := g.rng.Intn(len(args))
+		na := append(A{}, args...)
+		na[i] = g.mutate(obj(args[i]))
+		return J{"k": "call", "f": j["f"], "args": na}
+	case "list":
+		els := arr(j["els"])
+		if len(els) == 0 {
+			return g.leaf(gNum)
+		}
+		i := g.rng.Intn(len(els))
+		ne := append(A{}, els...)
+		ne[i] = g.mutate(obj(els[i]))
+		return J{"k": "list", "els": ne}
+	case "sub":
+		return J{"k": "sub", "x": g.mutate(obj(j["x"])), "i": j["i"]}
+	case "mem":
+		return J{"k": "mem", "x": g.mutate(obj(j["x"])), "n": j["n"]}
+	}
+	return g.leaf(gty(g.rng.Intn(int(gNTypes))))
+}
+
+// genProgs: mode "deep" = depth up to 5, otherwise up to 3; one in eight programs is a mutant
+func genProgs(rng *rand.Rand, n int, mode string) []J {
+	g := &pgen{rng}
+	maxd := 3
+	if mode == "deep" {
+		maxd = 5
+	}
+	out := make([]J, 0, n)
+	for i := 0; i < n; i++ {
+		e := g.gen(gty(rng.Intn(int(gNTypes))), 1+rng.Intn(maxd))
+		if rng.Intn(8) == 0 {
+			e = g.mutate(e)
+		}
+		out = append(out, J{"fam": "eval", "e": e, "envid": "E1"})
+	}
+	return out
+}
